@@ -217,7 +217,7 @@ theorem taskSuccess_all (σ : Static) (e : EnvSt) (q : WQ) (t : Nat) (r : TResul
     | some w =>
       have ok := hw w hwk
       exact (integrateWork_good σ e _ w (some t) g1
-        ⟨ok.gnodup, ok.snodup, ok.gfresh, ok.sfresh, ok.noself⟩).1
+        ⟨ok.gnodup, ok.snodup, ok.gfresh, ok.sfresh, ok.noself, ok.plt⟩).1
   have h0 : SuccAll σ (e.intro r.work) D
       ((integrateWork σ (setTaskValue q t r.value) r.work (some t)).1, [], [], []) := by
     refine ⟨g2, ?_, trivial, List.nodup_nil, by simp, List.nodup_nil, by simp⟩
@@ -417,7 +417,7 @@ theorem items_all (σ : Static) (q0 qe : WQ) (items : List IResult) :
       have := hc.2
       rw [hw] at this
       have ok := workOk_of σ e qe none w this
-      exact ⟨ok.gnodup, ok.snodup, ok.gfresh, ok.sfresh, ok.noself⟩
+      exact ⟨ok.gnodup, ok.snodup, ok.gfresh, ok.sfresh, ok.noself, ok.plt⟩
     · rw [if_neg hc] at hi; cases hi
 
 /-- `_stream_items` on a good graph with well-formed items. -/
